@@ -569,6 +569,14 @@ def _run_check(P, tier, seed, replay=None):
         rng = Rng(seed)
         gen = P.gen_cases(tier, rng) if replay is None else {'cases': [replay], 'scopes': ['replay']}
         raw = gen['cases']
+        if replay is None:
+            # the corpus runs first: the failing cases of earlier findings and of the seeded changes
+            # (corpus/<ID>.txt, written by tools/build_corpus.py), so that a change of a generator cannot lose them
+            cf = VERIF / 'corpus' / f'{pid}.txt'
+            if cf.exists():
+                corpus = [l.strip() for l in cf.read_text().splitlines() if l.strip() and not l.startswith('#')]
+                raw = corpus + list(raw)
+                gen.setdefault('scopes', []).append('corpus: %d stored failing cases (corpus/%s.txt) run first' % (len(corpus), pid))
         corr['scopes'] = gen.get('scopes', [])
         corr['exhaustive'] = bool(gen.get('exhaustive', False))
         seen = set()
